@@ -230,3 +230,59 @@ func GuardsOfEvent(e Event) []FrameGuard {
 	}
 	return out
 }
+
+// FV is a value together with the (virtual) frame it belongs to.
+type FV struct {
+	V ssa.Value
+	F *Frame
+}
+
+// RootFV wraps a value of fn's own frame.
+func RootFV(fn *ssa.Function, v ssa.Value) FV { return FV{v, &Frame{Fn: fn}} }
+
+// EventFV wraps a value of the event's frame.
+func EventFV(e Event, v ssa.Value) FV { return FV{v, e.Frame} }
+
+// Resolve follows a value through loads and conversions, parameters of helper frames (to the caller's
+// argument) and single-return module helpers (to the returned value, in a new frame) until it reaches a
+// defining construct. stop names helpers that are not looked into. The trace lists the helper calls passed.
+func (x FV) Resolve(stop func(*ssa.Function) bool) FV {
+	r, _ := x.ResolveTrace(stop)
+	return r
+}
+
+func (x FV) ResolveTrace(stop func(*ssa.Function) bool) (FV, []FV) {
+	var trace []FV
+	for i := 0; i < 24; i++ {
+		v := Strip(x.V)
+		switch y := v.(type) {
+		case *ssa.Parameter:
+			if x.F == nil || x.F.Parent == nil || y.Parent() != x.F.Fn {
+				return FV{v, x.F}, trace
+			}
+			idx := paramIndex(y)
+			args := x.F.Site.Common().Args
+			if idx < 0 || idx >= len(args) {
+				return FV{v, x.F}, trace
+			}
+			x = FV{args[idx], x.F.Parent}
+		case *ssa.Call:
+			f := Callee(y)
+			if f == nil || f.Blocks == nil || !core.InModule(f) || (stop != nil && stop(f)) {
+				return FV{v, x.F}, trace
+			}
+			rets := Returns(f)
+			if len(rets) != 1 || len(rets[0].Results) != 1 {
+				return FV{v, x.F}, trace
+			}
+			trace = append(trace, FV{v, x.F})
+			x = FV{rets[0].Results[0], &Frame{Fn: f, Site: y, Parent: x.F}}
+		default:
+			return FV{v, x.F}, trace
+		}
+	}
+	return x, trace
+}
+
+// ParamIndex is the position of p among its function's parameters (receiver first).
+func ParamIndex(p *ssa.Parameter) int { return paramIndex(p) }
